@@ -49,6 +49,18 @@ try:
         else:
             if "<<<<<<<" in text or helpers:
                 verdict(True, "a cleanly merged file has markers or helper files", input=name, observed=str((text, helpers)))
+    # user lines that look like marker lines, unchanged on both sides, in a merge without conflicting regions: no conflict, and
+    # the merged text is exactly the clean merge (recognition of conflicting regions must not depend on what the lines say)
+    for i, ml in enumerate(("<<<<<<< TREE", "=======", ">>>>>>> MERGE-SOURCE", "||||||| BASE-REVISION", "<<<<<<< TREE quoted in documentation")):
+        tried += 1
+        b = "a\n%s\nb\nc\n" % ml
+        d, wt, conflicts = scenario("markerlike%d" % i, b, b + "T\n", "O\n" + b)
+        text = open(os.path.join(d, "f")).read()
+        helpers = sorted(x for x in os.listdir(d) if x.startswith("f."))
+        if conflicts or helpers or text != "O\n" + b + "T\n":
+            verdict(True, "a merge without conflicting regions reported a text conflict, wrote helper files or changed a line, because a user "
+                          "line looks like a conflict marker", input=dict(base=b, this=b + "T\n", other="O\n" + b),
+                    observed=str((text, helpers, [str(c) for c in conflicts])))
     # F5: a user line that begins with the sentinel, in a merge without conflicting regions
     tried += 1
     d, wt, conflicts = scenario("sentinel", "a\nb\nc\n", "a\nb\nc\n" + SENTINEL + " my line\n", "O\na\nb\nc\n")
